@@ -1,2 +1,1326 @@
-(* Proofs for C11. *)
-From WI Require Import Lib.Base Lib.Info Model.PgpEntity.
+(* Proofs for C11: which verification every listed identity / subkey has passed, unambiguous
+   framing of the hashed messages, and the bit-flip formulation relative to the named
+   cryptographic hypothesis.  No axioms; standard library only. *)
+From WI Require Import Lib.Base Lib.Info gen.PgpTables Model.PgpKey Model.PgpEntity Proofs.PgpKey.
+From Coq Require Import List NArith ZArith Lia Bool.
+From Coq Require Import ZifyN ZifyNat ZifyBool.
+Import ListNotations.
+Open Scope N_scope.
+
+(* ------------------------------------------------------------------ *)
+(* what a successful signature check means                             *)
+(* ------------------------------------------------------------------ *)
+Lemma bind_ok' : forall {A B} (r : result A) (f : A -> result B) b,
+  bind r f = Ok b -> exists a, r = Ok a /\ f a = Ok b.
+Proof. intros A B r f b H. destruct r; simpl in H; try discriminate. eauto. Qed.
+
+(* the digest was computed over exactly prefix ++ suffix, its first two octets are the hash
+   prefix stored in the packet, key and signature name the same algorithm, and the primitive accepted *)
+Definition sig_accepted (c : cfg) (P : params) (k : pubkey) (msg : bytes) (s : sigcore) : Prop :=
+  pk_can_sign k = true /\
+  exists dg, p_D P (sc_hash s) msg = Ok dg /\ tag_match dg (sc_tag s) = true /\
+             pk_algo k = sc_alg s /\ crypto_check c P k s dg = Ok true.
+
+Lemma verify_signature_inv : forall c P k prefix s,
+  verify_signature c P k prefix s = Ok tt -> sig_accepted c P k (prefix ++ suffix s) s.
+Proof.
+  intros c P k prefix s H. unfold verify_signature in H.
+  destruct (pk_can_sign k) eqn:Ec; simpl in H; [|discriminate].
+  apply bind_ok' in H. destruct H as [dg [Ed H]].
+  destruct (tag_match dg (sc_tag s)) eqn:Et; simpl in H; [|discriminate].
+  destruct (pk_algo k =? sc_alg s) eqn:Ea; simpl in H; [|discriminate].
+  apply bind_ok' in H. destruct H as [ok [Ek H]].
+  destruct ok; [|discriminate].
+  split; auto. exists dg. repeat split; auto. now apply N.eqb_eq.
+Qed.
+
+Lemma verify_uid_sig_inv : forall c P k id s,
+  verify_uid_sig c P k id s = Ok tt ->
+  p_avail P (sc_hash s) = true /\ sig_accepted c P k (uid_hash_input k id ++ suffix s) s.
+Proof.
+  intros c P k id s H. unfold verify_uid_sig in H.
+  destruct (p_avail P (sc_hash s)); simpl in H; [|discriminate].
+  split; auto. now apply verify_signature_inv.
+Qed.
+
+Lemma verify_key_sig_inv : forall c P k sk s,
+  verify_key_sig c P k sk s = Ok tt ->
+  sig_accepted c P k (binding_hash_input k sk ++ suffix (s_core s)) (s_core s) /\
+  (has_flag (sc_flags (s_core s)) pgp_flag_sign = true ->
+   exists e, s_emb s = Some e /\ sig_accepted c P sk (binding_hash_input k sk ++ suffix e) e).
+Proof.
+  intros c P k sk s H. unfold verify_key_sig in H.
+  destruct (p_avail P (sc_hash (s_core s))); simpl in H; [|discriminate].
+  apply bind_ok' in H. destruct H as [u [E H]]. destruct u.
+  split; [now apply verify_signature_inv|].
+  intros F. rewrite F in H. destruct (s_emb s) as [e|]; [|discriminate].
+  destruct (p_avail P (sc_hash e)); simpl in H; [|discriminate].
+  exists e. split; auto. now apply verify_signature_inv.
+Qed.
+
+(* ------------------------------------------------------------------ *)
+(* the packet state machine                                            *)
+(* ------------------------------------------------------------------ *)
+Definition sig_evs (l : list sigp) : list event := map (fun s => EvP (PSig s)) l.
+
+Lemma sig_evs_app : forall a b, sig_evs (a ++ b) = sig_evs a ++ sig_evs b.
+Proof. intros. unfold sig_evs. apply map_app. Qed.
+
+(* in [evs] the user-ID packet [name] is followed, with nothing but signature packets in between,
+   by the signature packet [s] *)
+Definition uid_followed_by (evs : list event) (name : bytes) (s : sigp) : Prop :=
+  exists pre sigs post, evs = pre ++ EvP (PUid name) :: sig_evs sigs ++ EvP (PSig s) :: post.
+(* the same for a subkey packet *)
+Definition subkey_followed_by (evs : list event) (k : pubkey) (s : sigp) : Prop :=
+  exists pre sec sigs post, evs = pre ++ EvP (PKey true sec k) :: sig_evs sigs ++ EvP (PSig s) :: post.
+
+Section Machine.
+  Variable c : cfg.
+  Variable P : params.
+  Variable primary : pubkey.
+  Variable pid : N.
+
+  Definition id_bound (evs : list event) (i : identity) : Prop :=
+    exists s, uid_followed_by evs (id_name i) s /\ s_core s = id_self i /\
+              is_self_cert pid (id_self i) = true /\
+              verify_uid_sig c P primary (id_name i) (id_self i) = Ok tt.
+
+  Definition binding_type (t : N) : bool := (t =? pgp_sigtype_subkey_binding) || (t =? pgp_sigtype_subkey_revocation).
+
+  Definition sub_bound (evs : list event) (sk : subkey) : Prop :=
+    exists s, subkey_followed_by evs (sk_key sk) s /\ s_core s = sk_sig sk /\
+              binding_type (sc_type (sk_sig sk)) = true /\
+              verify_key_sig c P primary (sk_key sk) s = Ok tt.
+
+  Lemma id_bound_mono : forall evs more i, id_bound evs i -> id_bound (evs ++ more) i.
+  Proof.
+    intros evs more i (s & (pre & sigs & post & E) & H). exists s. split; auto.
+    exists pre, sigs, (post ++ more). subst evs. rewrite <- app_assoc. simpl. f_equal. f_equal.
+    rewrite <- app_assoc. reflexivity.
+  Qed.
+  Lemma sub_bound_mono : forall evs more k, sub_bound evs k -> sub_bound (evs ++ more) k.
+  Proof.
+    intros evs more k (s & (pre & sec & sigs & post & E) & H). exists s. split; auto.
+    exists pre, sec, sigs, (post ++ more). subst evs. rewrite <- app_assoc. simpl. f_equal. f_equal.
+    rewrite <- app_assoc. reflexivity.
+  Qed.
+
+  Definition st_inv (done : list event) (st : est) : Prop :=
+    Forall (id_bound done) (st_ids st) /\ Forall (sub_bound done) (st_subs st).
+
+  Lemma st_inv_mono : forall done more st, st_inv done st -> st_inv (done ++ more) st.
+  Proof.
+    intros done more st [A B]. split.
+    - eapply Forall_impl; [|exact A]. intros. now apply id_bound_mono.
+    - eapply Forall_impl; [|exact B]. intros. now apply sub_bound_mono.
+  Qed.
+
+  Definition mode_inv (done : list event) (m : mode) : Prop :=
+    match m with
+    | MTop => True
+    | MUid name self others =>
+        exists pre sigs, done = pre ++ EvP (PUid name) :: sig_evs sigs /\
+          match self with
+          | None => True
+          | Some sc => exists s1 s s2, sigs = s1 ++ s :: s2 /\ s_core s = sc /\
+                         is_self_cert pid sc = true /\ verify_uid_sig c P primary name sc = Ok tt
+          end
+    | MSub k sg =>
+        exists pre sec sigs, done = pre ++ EvP (PKey true sec k) :: sig_evs sigs /\
+          match sg with
+          | None => True
+          | Some sc => exists s1 s s2, sigs = s1 ++ s :: s2 /\ s_core s = sc /\
+                         binding_type (sc_type sc) = true /\ verify_key_sig c P primary k s = Ok tt
+          end
+    end.
+
+  Lemma put_identity_Forall : forall (Q : identity -> Prop) i l, Q i -> Forall Q l -> Forall Q (put_identity i l).
+  Proof.
+    intros Q i l Hi H. induction H; simpl.
+    - constructor; auto.
+    - destruct (bytes_eqb (id_name x) (id_name i)); constructor; auto.
+  Qed.
+
+  Lemma close_inv : forall done st m st', st_inv done st -> mode_inv done m ->
+    close_mode st m = Ok st' -> st_inv done st'.
+  Proof.
+    intros done st m st' [A B] M H. destruct m as [|name self others|k sg]; simpl in H.
+    - inversion H; subst. split; auto.
+    - destruct self as [sc|]; inversion H; subst; [|split; auto].
+      split; auto. simpl. apply put_identity_Forall; auto.
+      destruct M as (pre & sigs & E & s1 & s & s2 & Es & Ec & Hc & Hv).
+      exists s. simpl. repeat split; auto.
+      exists pre, s1, (sig_evs s2). subst done sigs. rewrite sig_evs_app. reflexivity.
+    - destruct sg as [sc|]; [|discriminate]. inversion H; subst. split; auto. simpl.
+      apply Forall_app. split; auto. constructor; auto.
+      destruct M as (pre & sec & sigs & E & s1 & s & s2 & Es & Ec & Hc & Hv).
+      exists s. simpl. repeat split; auto.
+      exists pre, sec, s1, (sig_evs s2). subst done sigs. rewrite sig_evs_app. reflexivity.
+  Qed.
+
+  Definition next_inv (done : list event) (n : next) : Prop :=
+    match n with
+    | Cont st m => st_inv done st /\ mode_inv done m
+    | Stop st => st_inv done st
+    end.
+
+  Lemma top_step_inv : forall done st p, st_inv done st -> next_inv (done ++ [EvP p]) (top_step st p).
+  Proof.
+    intros done st p I. pose proof (st_inv_mono done [EvP p] st I) as I'.
+    destruct p as [sub sec k|id|s]; simpl.
+    - destruct sub; simpl; auto. split; auto. exists done, sec, []. simpl. split; auto.
+    - split; auto. exists done, []. simpl. split; auto.
+    - destruct (sc_type (s_core s) =? pgp_sigtype_key_revocation); simpl; split; auto.
+      all: try (destruct I' as [A B]; split; auto).
+  Qed.
+
+  Lemma snoc_sig : forall pre x sigs s,
+    (pre ++ x :: sig_evs sigs) ++ [EvP (PSig s)] = pre ++ x :: sig_evs (sigs ++ [s]).
+  Proof. intros. rewrite sig_evs_app. rewrite <- app_assoc. reflexivity. Qed.
+
+  Definition is_sig_packet (p : packet) : bool := match p with PSig _ => true | _ => false end.
+
+  Lemma step_close : forall st m p, m <> MTop -> is_sig_packet p = false ->
+    step c P primary pid st m p = bind (close_mode st m) (fun st' => Ok (top_step st' p)).
+  Proof. intros st m p Hm Hp. destruct m; destruct p; try reflexivity; try discriminate; contradiction. Qed.
+
+  Lemma step_top : forall st p, step c P primary pid st MTop p = Ok (top_step st p).
+  Proof. reflexivity. Qed.
+
+  Lemma step_uid_sig : forall st name self others s,
+    step c P primary pid st (MUid name self others) (PSig s) =
+      if is_self_cert pid (s_core s)
+      then bind (verify_uid_sig c P primary name (s_core s)) (fun _ => Ok (Cont st (MUid name (Some (s_core s)) others)))
+      else Ok (Cont st (MUid name self (others ++ [s_core s]))).
+  Proof. reflexivity. Qed.
+
+  Lemma step_sub_sig : forall st k sg s,
+    step c P primary pid st (MSub k sg) (PSig s) =
+      if negb (binding_type (sc_type (s_core s))) then Err "subkey signature with wrong type"
+      else bind (verify_key_sig c P primary k s) (fun _ =>
+             if sc_type (s_core s) =? pgp_sigtype_subkey_revocation then Ok (Cont st (MSub k (Some (s_core s))))
+             else if should_replace sg (s_core s) then Ok (Cont st (MSub k (Some (s_core s))))
+             else Ok (Cont st (MSub k sg))).
+  Proof. reflexivity. Qed.
+
+  Lemma step_inv : forall done st m p n, st_inv done st -> mode_inv done m ->
+    step c P primary pid st m p = Ok n -> next_inv (done ++ [EvP p]) n.
+  Proof.
+    intros done st m p n I M H.
+    destruct (is_sig_packet p) eqn:Ep.
+    - destruct p as [| |s]; try discriminate.
+      destruct m as [|name self others|k sg].
+      + rewrite step_top in H. injection H as <-. exact (top_step_inv done st (PSig s) I).
+      + rewrite step_uid_sig in H. destruct M as (pre & sigs & E & Hs).
+        destruct (is_self_cert pid (s_core s)) eqn:Esc.
+        * apply bind_ok' in H. destruct H as [u [Ev H]]. destruct u. inversion H; subst n.
+          split; [now apply st_inv_mono|].
+          exists pre, (sigs ++ [s]). rewrite E. split; [apply snoc_sig|].
+          exists sigs, s, []. repeat split; auto.
+        * inversion H; subst n. split; [now apply st_inv_mono|].
+          exists pre, (sigs ++ [s]). rewrite E. split; [apply snoc_sig|].
+          destruct self as [sc|]; auto.
+          destruct Hs as (s1 & s0 & s2 & Es & R). exists s1, s0, (s2 ++ [s]). split; auto.
+          rewrite Es. rewrite <- app_assoc. reflexivity.
+      + rewrite step_sub_sig in H. destruct M as (pre & sec & sigs & E & Hs).
+        destruct (binding_type (sc_type (s_core s))) eqn:Et; simpl negb in H; cbv iota in H; [|discriminate].
+        apply bind_ok' in H. destruct H as [u [Ev H]]. destruct u.
+        assert (New : mode_inv (done ++ [EvP (PSig s)]) (MSub k (Some (s_core s)))).
+        { exists pre, sec, (sigs ++ [s]). rewrite E. split; [apply snoc_sig|].
+          exists sigs, s, []. repeat split; auto. }
+        assert (Old : mode_inv (done ++ [EvP (PSig s)]) (MSub k sg)).
+        { exists pre, sec, (sigs ++ [s]). rewrite E. split; [apply snoc_sig|].
+          destruct sg as [sc|]; auto.
+          destruct Hs as (s1 & s0 & s2 & Es & R). exists s1, s0, (s2 ++ [s]). split; auto.
+          rewrite Es. rewrite <- app_assoc. reflexivity. }
+        destruct (sc_type (s_core s) =? pgp_sigtype_subkey_revocation).
+        * inversion H; subst n. split; [now apply st_inv_mono | exact New].
+        * destruct (should_replace sg (s_core s)); inversion H; subst n;
+            (split; [now apply st_inv_mono | auto]).
+    - destruct m as [|name self others|k sg].
+      + rewrite step_top in H. injection H as <-. exact (top_step_inv done st p I).
+      + rewrite step_close in H by (discriminate || assumption).
+        apply bind_ok' in H. destruct H as [st' [Ec H]]. injection H as <-.
+        exact (top_step_inv done st' p (close_inv _ _ _ _ I M Ec)).
+      + rewrite step_close in H by (discriminate || assumption).
+        apply bind_ok' in H. destruct H as [st' [Ec H]]. injection H as <-.
+        exact (top_step_inv done st' p (close_inv _ _ _ _ I M Ec)).
+  Qed.
+
+  Lemma finish_inv : forall st e, finish c P primary st = Ok e ->
+    e_ids e = st_ids st /\ e_subkeys e = st_subs st /\ e_primary e = primary /\ st_ids st <> [].
+  Proof.
+    intros st e H. unfold finish in H.
+    assert (N : st_ids st <> []) by (destruct (st_ids st); [discriminate | discriminate]).
+    destruct (st_ids st) eqn:E; [discriminate|]. rewrite <- E in *.
+    apply bind_ok' in H. destruct H as [u [_ H]]. injection H as <-. simpl. auto.
+  Qed.
+
+  Lemma run_inv : forall rest done st m e, st_inv done st -> mode_inv done m ->
+    run_packets c P primary pid st m rest = Ok e ->
+    Forall (id_bound (done ++ rest)) (e_ids e) /\ Forall (sub_bound (done ++ rest)) (e_subkeys e) /\
+    e_primary e = primary /\ e_ids e <> [].
+  Proof.
+    induction rest as [|ev rest IH]; intros done st m e I M H.
+    - simpl in H. apply bind_ok' in H. destruct H as [st' [Ec H]].
+      pose proof (close_inv _ _ _ _ I M Ec) as [A B].
+      apply finish_inv in H. destruct H as (E1 & E2 & E3 & E4).
+      rewrite app_nil_r. rewrite E1, E2. auto.
+    - destruct ev as [p| | | |]; simpl in H; try discriminate.
+      apply bind_ok' in H. destruct H as [n [Es H]].
+      pose proof (step_inv _ _ _ _ _ I M Es) as N.
+      replace (done ++ EvP p :: rest) with ((done ++ [EvP p]) ++ rest) by (rewrite <- app_assoc; reflexivity).
+      destruct n as [st' m'|st'].
+      + destruct N as [I' M']. eapply IH; eauto.
+      + simpl in N. destruct (st_inv_mono _ rest _ N) as [A B].
+        apply finish_inv in H. destruct H as (E1 & E2 & E3 & E4). rewrite E1, E2. auto.
+  Qed.
+End Machine.
+
+(* ------------------------------------------------------------------ *)
+(* C11_identity_bound / C11_subkey_bound                               *)
+(* ------------------------------------------------------------------ *)
+Definition first_key (evs : list event) : option pubkey :=
+  match evs with EvP (PKey _ _ k) :: _ => Some k | _ => None end.
+
+Theorem read_entity_bound : forall c P evs e, read_entity c P evs = Ok e ->
+  first_key evs = Some (e_primary e) /\
+  algo_can_sign (pk_algo (e_primary e)) = true /\
+  e_ids e <> [] /\
+  Forall (id_bound c P (e_primary e) (key_id (p_H P) (e_primary e)) evs) (e_ids e) /\
+  Forall (sub_bound c P (e_primary e) evs) (e_subkeys e).
+Proof.
+  intros c P evs e H. unfold read_entity in H.
+  destruct evs as [|[p| | | |] rest]; try discriminate.
+  destruct p as [sub sec k|id|s]; try discriminate.
+  destruct (algo_can_sign (pk_algo k)) eqn:Ea; simpl in H; [|discriminate].
+  pose proof (run_inv c P k (key_id (p_H P) k) rest [EvP (PKey sub sec k)] (mkest [] [] []) MTop e) as R.
+  destruct R as (A & B & E1 & E2); auto.
+  - split; constructor.
+  - simpl. exact I.
+  - subst k. simpl in A, B. simpl. auto.
+Qed.
+
+(* ------------------------------------------------------------------ *)
+(* the children of the description are exactly the bound items         *)
+(* ------------------------------------------------------------------ *)
+Lemma insert_id_In : forall i l x, In x (insert_id i l) <-> x = i \/ In x l.
+Proof.
+  induction l; simpl; intros x.
+  - intuition.
+  - destruct (bytes_ltb (id_name i) (id_name a)); simpl; rewrite ?IHl; intuition.
+Qed.
+Lemma sort_ids_In : forall l x, In x (sort_ids l) <-> In x l.
+Proof.
+  induction l; simpl; intros x.
+  - tauto.
+  - unfold sort_ids in *. simpl. rewrite insert_id_In. rewrite IHl. intuition.
+Qed.
+
+Theorem children_are_bound_items : forall c P private stream i,
+  pgp_key c P private stream = Ok i ->
+  exists e, read_entity c P (events_of c P stream) = Ok e /\
+    forall child, In child (i_children i) ->
+      (exists id, In id (e_ids e) /\ child = identity_info c (e_primary e) id) \/
+      (exists sk, In sk (e_subkeys e) /\ child = subkey_info c (p_H P) sk).
+Proof.
+  intros c P private stream i H. unfold pgp_key in H.
+  apply bind_ok' in H. destruct H as [e [E H]]. inversion H; subst. exists e. split; auto.
+  intros child Hc. simpl in Hc. apply in_app_or in Hc. destruct Hc as [Hc|Hc]; apply in_map_iff in Hc;
+    destruct Hc as [x [Ex Hx]].
+  - left. exists x. split; auto. now apply sort_ids_In.
+  - right. exists x. split; auto.
+Qed.
+
+(* ------------------------------------------------------------------ *)
+(* C11_hash_input_injective: the hashed messages are uniquely decodable *)
+(* ------------------------------------------------------------------ *)
+Lemma app_eq_len : forall {A} (a1 a2 b1 b2 : list A), length a1 = length a2 ->
+  a1 ++ b1 = a2 ++ b2 -> a1 = a2 /\ b1 = b2.
+Proof.
+  induction a1; destruct a2; simpl; intros b1 b2 L H; try discriminate; auto.
+  inversion H; subst. destruct (IHa1 a2 b1 b2) as [E1 E2]; auto. subst. auto.
+Qed.
+
+Lemma lenN_eq_length : forall (a b : bytes), lenN a = lenN b -> length a = length b.
+Proof. unfold lenN. intros. lia. Qed.
+
+Lemma frame16_inj : forall a b x y, lenN a < 65536 -> lenN b < 65536 ->
+  be16 (lenN a) ++ a ++ x = be16 (lenN b) ++ b ++ y -> a = b /\ x = y.
+Proof.
+  intros a b x y Ha Hb H. apply app_eq_len in H; [|unfold be16; now rewrite !N_to_be_length].
+  destruct H as [L H]. apply N_to_be_inj in L; [| exact Ha | exact Hb].
+  apply app_eq_len in H; auto. now apply lenN_eq_length.
+Qed.
+
+Lemma frame32_inj : forall a b x y, lenN a < 4294967296 -> lenN b < 4294967296 ->
+  be32 (lenN a) ++ a ++ x = be32 (lenN b) ++ b ++ y -> a = b /\ x = y.
+Proof.
+  intros a b x y Ha Hb H. apply app_eq_len in H; [|unfold be32; now rewrite !N_to_be_length].
+  destruct H as [L H]. apply N_to_be_inj in L; [| exact Ha | exact Hb].
+  apply app_eq_len in H; auto. now apply lenN_eq_length.
+Qed.
+
+Lemma cons_inj : forall (a : N) l l', a :: l = a :: l' -> l = l'.
+Proof. intros a l l' H. now injection H. Qed.
+
+Lemma key_hash_input_inj : forall k k' x y, lenN (key_body k) < 65536 -> lenN (key_body k') < 65536 ->
+  key_hash_input k ++ x = key_hash_input k' ++ y -> key_body k = key_body k' /\ x = y.
+Proof.
+  intros k k' x y Hk Hk' H. unfold key_hash_input in H. rewrite <- !app_comm_cons in H.
+  apply cons_inj in H. rewrite <- !app_assoc in H. now apply frame16_inj in H.
+Qed.
+
+Lemma suffix_inj : forall s s', lenN (sc_hashed s) < 65536 -> lenN (sc_hashed s') < 65536 ->
+  suffix s = suffix s' -> sig_header s = sig_header s' /\ sc_hashed s = sc_hashed s'.
+Proof.
+  intros s s' Hs Hs' H. unfold suffix in H.
+  apply app_eq_len in H; [|reflexivity]. destruct H as [E H]. split; auto.
+  apply frame16_inj in H; tauto.
+Qed.
+
+Theorem uid_message_injective : forall k u s k' u' s',
+  lenN (key_body k) < 65536 -> lenN (key_body k') < 65536 ->
+  lenN u < 4294967296 -> lenN u' < 4294967296 ->
+  lenN (sc_hashed s) < 65536 -> lenN (sc_hashed s') < 65536 ->
+  uid_hash_input k u ++ suffix s = uid_hash_input k' u' ++ suffix s' ->
+  key_body k = key_body k' /\ u = u' /\ sc_hashed s = sc_hashed s' /\ sig_header s = sig_header s'.
+Proof.
+  intros k u s k' u' s' Hk Hk' Hu Hu' Hs Hs' H. unfold uid_hash_input in H.
+  rewrite <- !app_assoc in H. apply key_hash_input_inj in H; auto. destruct H as [E1 H].
+  rewrite <- !app_comm_cons in H. apply cons_inj in H. rewrite <- !app_assoc in H. apply frame32_inj in H; auto.
+  destruct H as [E2 H]. apply suffix_inj in H; auto. tauto.
+Qed.
+
+Theorem binding_message_injective : forall k sk s k' sk' s',
+  lenN (key_body k) < 65536 -> lenN (key_body k') < 65536 ->
+  lenN (key_body sk) < 65536 -> lenN (key_body sk') < 65536 ->
+  lenN (sc_hashed s) < 65536 -> lenN (sc_hashed s') < 65536 ->
+  binding_hash_input k sk ++ suffix s = binding_hash_input k' sk' ++ suffix s' ->
+  key_body k = key_body k' /\ key_body sk = key_body sk' /\ sc_hashed s = sc_hashed s' /\ sig_header s = sig_header s'.
+Proof.
+  intros k sk s k' sk' s' Hk Hk' Hsk Hsk' Hs Hs' H. unfold binding_hash_input in H.
+  rewrite <- !app_assoc in H. apply key_hash_input_inj in H; auto. destruct H as [E1 H].
+  apply key_hash_input_inj in H; auto. destruct H as [E2 H]. apply suffix_inj in H; auto. tauto.
+Qed.
+
+(* a certification can never be read as a subkey binding or vice versa *)
+Theorem uid_vs_binding_disjoint : forall k u s k' sk' s',
+  lenN (key_body k) < 65536 -> lenN (key_body k') < 65536 ->
+  uid_hash_input k u ++ suffix s <> binding_hash_input k' sk' ++ suffix s'.
+Proof.
+  intros k u s k' sk' s' Hk Hk' H. unfold uid_hash_input, binding_hash_input in H.
+  rewrite <- !app_assoc in H. apply key_hash_input_inj in H; auto. destruct H as [_ H].
+  unfold key_hash_input in H. rewrite <- !app_comm_cons in H. discriminate.
+Qed.
+
+(* and neither can be read as a key revocation (the message ends after the key) *)
+
+(* parsed objects satisfy the length bounds *)
+Lemma parse_sig_hashed_short : forall fuel l s rest, bytes_ok l = true ->
+  parse_sig_fuel fuel l = Ok (s, rest) -> lenN (sc_hashed (s_core s)) < 65536.
+Proof.
+  destruct fuel; intros l s rest Hok H; simpl in H; [discriminate|].
+  destruct l as [|v r]; [discriminate|].
+  destruct (negb (v =? 4)); [discriminate|].
+  destruct r as [|typ [|alg [|hid [|h1 [|h0 r1]]]]]; try discriminate.
+  destruct (negb (sig_alg_ok alg)); [discriminate|].
+  destruct (negb (hash_id_ok hid)); [discriminate|].
+  destruct (read_n (h1 * 256 + h0) r1) as [[hashed r2]|] eqn:E; [|discriminate].
+  apply read_n_spec in E. destruct E as [_ E].
+  assert (B : h1 < 256 /\ h0 < 256).
+  { do 4 (apply bytes_ok_cons in Hok; destruct Hok as [_ Hok]).
+    apply bytes_ok_cons in Hok; destruct Hok as [B1 Hok]. apply bytes_ok_cons in Hok; destruct Hok as [B0 _]. auto. }
+  apply bind_ok' in H. destruct H as [st1 [_ H]].
+  destruct r2 as [|u1 [|u0 r3]]; try discriminate.
+  destruct (read_n (u1 * 256 + u0) r3) as [[unhashed r4]|]; [|discriminate].
+  apply bind_ok' in H. destruct H as [st2 [_ H]].
+  destruct r4 as [|g0 [|g1 r5]]; try discriminate.
+  apply bind_ok' in H. destruct H as [[mpis r6] [_ H]]. inversion H; subst. simpl. lia.
+Qed.
+
+(* ------------------------------------------------------------------ *)
+(* the unrepaired code: witnesses                                      *)
+(* ------------------------------------------------------------------ *)
+(* F29: an EdDSA signature whose R has only 31 octets.  Whatever ed25519.Verify says about
+   64-octet signatures, the old code never asked it: it handed over 63 octets. *)
+Definition f29_key : pubkey := mkpub 1 22 (KEdDSA oid_ed25519 (mkmpi 263 (64 :: repeat 7 32))).
+Definition f29_sig : sigcore :=
+  mksig 19 22 8 [] [0; 0] [mkmpi 248 (repeat 9 31); mkmpi 256 (repeat 9 32)] 1 None None false 0.
+
+Lemma f29_legacy_rejects : forall P dg, crypto_check legacy P f29_key f29_sig dg = Ok false.
+Proof. intros. reflexivity. Qed.
+Lemma f29_fixed_asks_primitive : forall P dg,
+  crypto_check fixed P f29_key f29_sig dg = p_prim P f29_key 8 dg [0 :: repeat 9 31 ++ repeat 9 32].
+Proof. intros. reflexivity. Qed.
+
+(* F8: unprotected secret key with a cv25519 subkey *)
+Definition f8_key : pubkey := mkpub 1 18 (KECDH oid_x25519 (mkmpi 263 (64 :: repeat 7 32)) [3; 1; 8; 7]).
+Lemma f8_legacy_panics : forall P, parse_secret_tail legacy P f8_key false [0; 0; 8; 1; 0; 1] = Panic "impossible".
+Proof. intros. reflexivity. Qed.
+Lemma f8_fixed_parses : forall P, parse_secret_tail fixed P f8_key false [0; 0; 8; 1; 0; 1] = Ok tt.
+Proof. intros. reflexivity. Qed.
+
+(* F7, second form: a 21-octet EdDSA point reached ed25519.Verify, which panics *)
+Definition f7_short_key : pubkey := mkpub 1 22 (KEdDSA oid_ed25519 (mkmpi 167 (64 :: repeat 7 20))).
+Lemma f7_verify_panics : forall c P dg, is_panic (crypto_check c P f7_short_key f29_sig dg) = true.
+Proof. intros. reflexivity. Qed.
+Lemma f7_short_key_rejected : forall ecok,
+  parse_keymat fixed ecok 22 (9 :: oid_ed25519 ++ mpi_write (mkmpi 167 (64 :: repeat 7 20))) = Err "unsupported point length".
+Proof. intros. vm_compute. reflexivity. Qed.
+
+(* ------------------------------------------------------------------ *)
+(* the theorems in the form used by Props/C11.v                        *)
+(* ------------------------------------------------------------------ *)
+Lemma is_self_cert_inv : forall pid s, is_self_cert pid s = true ->
+  is_cert_type (sc_type s) = true /\ sc_issuer s = Some pid.
+Proof.
+  unfold is_self_cert. intros pid s H. apply andb_true_iff in H. destruct H as [H1 H2]. split; auto.
+  destruct (sc_issuer s) as [i|]; [|discriminate]. apply N.eqb_eq in H2. now subst.
+Qed.
+
+Theorem identity_bound : forall c P evs e, read_entity c P evs = Ok e ->
+  first_key evs = Some (e_primary e) /\ e_ids e <> [] /\
+  forall i, In i (e_ids e) ->
+    exists s, uid_followed_by evs (id_name i) s /\ s_core s = id_self i /\
+      is_cert_type (sc_type (id_self i)) = true /\
+      sc_issuer (id_self i) = Some (key_id (p_H P) (e_primary e)) /\
+      p_avail P (sc_hash (id_self i)) = true /\
+      sig_accepted c P (e_primary e) (uid_hash_input (e_primary e) (id_name i) ++ suffix (id_self i)) (id_self i).
+Proof.
+  intros c P evs e R. destruct (read_entity_bound _ _ _ _ R) as (F & _ & N & A & _).
+  split; auto. split; auto. intros i Hi. rewrite Forall_forall in A.
+  destruct (A i Hi) as (s & U & Ec & Sc & V). exists s.
+  apply is_self_cert_inv in Sc. destruct Sc as [T Is].
+  apply verify_uid_sig_inv in V. destruct V as [Av Acc].
+  split; [exact U|]. split; [exact Ec|]. split; [exact T|]. split; [exact Is|]. split; [exact Av | exact Acc].
+Qed.
+
+Theorem subkey_bound : forall c P evs e, read_entity c P evs = Ok e ->
+  forall sk, In sk (e_subkeys e) ->
+    exists s, subkey_followed_by evs (sk_key sk) s /\ s_core s = sk_sig sk /\
+      (sc_type (sk_sig sk) = pgp_sigtype_subkey_binding \/ sc_type (sk_sig sk) = pgp_sigtype_subkey_revocation) /\
+      sig_accepted c P (e_primary e) (binding_hash_input (e_primary e) (sk_key sk) ++ suffix (sk_sig sk)) (sk_sig sk) /\
+      (has_flag (sc_flags (sk_sig sk)) pgp_flag_sign = true ->
+       exists x, s_emb s = Some x /\
+         sig_accepted c P (sk_key sk) (binding_hash_input (e_primary e) (sk_key sk) ++ suffix x) x).
+Proof.
+  intros c P evs e R sk Hs. destruct (read_entity_bound _ _ _ _ R) as (_ & _ & _ & _ & B).
+  rewrite Forall_forall in B. destruct (B sk Hs) as (s & U & Ec & T & V). exists s.
+  apply verify_key_sig_inv in V. rewrite Ec in V. destruct V as [V1 V2].
+  split; [exact U|]. split; [exact Ec|]. split.
+  { unfold binding_type in T. apply orb_true_iff in T. destruct T as [T|T]; apply N.eqb_eq in T; auto. }
+  split; [exact V1 | exact V2].
+Qed.
+
+(* a concrete input meets the hypotheses: a key, a user ID and a certification that the
+   (permissive) parameters accept *)
+Definition ex_params : params :=
+  mkparams (fun _ => repeat 0 20) (fun _ _ => Ok [1; 2; 3]) (fun _ => true) (fun _ _ _ _ => Ok true)
+           (fun _ _ => Ok true) (fun _ => Ok true).
+Definition ex_key : pubkey := mkpub 1 1 (KRSA (mkmpi 16 [255; 1]) (mkmpi 2 [3])).
+Definition ex_sig : sigp :=
+  mksigp (mksig 19 1 8 [5; 2; 0; 0; 0; 1] [1; 2] [mkmpi 8 [200]] 1 None (Some 0) true 3) None.
+Definition ex_evs : list event := [EvP (PKey false false ex_key); EvP (PUid (bs "a")); EvP (PSig ex_sig)].
+Example ex_entity_accepted :
+  exists e, read_entity fixed ex_params ex_evs = Ok e /\ map id_name (e_ids e) = [bs "a"].
+Proof. eexists. split; vm_compute; reflexivity. Qed.
+(* and the same stream is rejected as soon as the primitive says no *)
+Example ex_entity_rejected :
+  is_ok (read_entity fixed (mkparams (fun _ => repeat 0 20) (fun _ _ => Ok [1; 2; 3]) (fun _ => true)
+                              (fun _ _ _ _ => Ok false) (fun _ _ => Ok true) (fun _ => Ok true)) ex_evs) = false.
+Proof. vm_compute. reflexivity. Qed.
+
+Theorem parsed_lengths : forall c ecok body k rest fuel l s rest',
+  bytes_ok body = true -> parse_public_key c ecok body = Ok (k, rest) ->
+  bytes_ok l = true -> parse_sig_fuel fuel l = Ok (s, rest') ->
+  lenN (key_body k) < 65536 /\ lenN (sc_hashed (s_core s)) < 65536.
+Proof.
+  intros c ecok body k rest fuel l s rest' H1 H2 H3 H4. split.
+  - exact (parsed_key_body_short c ecok body k rest H1 H2).
+  - exact (parse_sig_hashed_short fuel l s rest' H3 H4).
+Qed.
+
+
+
+(* ------------------------------------------------------------------ *)
+(* the repaired code cannot panic (positive counterpart of F7 / F8)    *)
+(* ------------------------------------------------------------------ *)
+Definition np {A} (r : result A) : Prop := is_panic r = false.
+
+Lemma np_ok : forall {A} (a : A), np (Ok a). Proof. reflexivity. Qed.
+Lemma np_err : forall {A} e, np (@Err A e). Proof. reflexivity. Qed.
+Lemma np_bind : forall {A B} (r : result A) (f : A -> result B),
+  np r -> (forall a, r = Ok a -> np (f a)) -> np (bind r f).
+Proof. intros A B r f H1 H2. destruct r; simpl; auto. Qed.
+Lemma np_if : forall {A} (b : bool) (x y : result A), np x -> np y -> np (if b then x else y).
+Proof. intros. destruct b; auto. Qed.
+
+Lemma mpi_read_np : forall l, np (mpi_read l).
+Proof.
+  intros l. unfold mpi_read. destruct l as [|b0 [|b1 r]]; try reflexivity.
+  destruct (read_n _ r) as [[v rest]|]; reflexivity.
+Qed.
+Lemma parse_oid_np : forall l, np (parse_oid l).
+Proof.
+  intros l. unfold parse_oid. destruct l as [|n r]; try reflexivity.
+  destruct (pgp_max_oid_len <? n); try reflexivity. destruct (read_n n r) as [[o rest]|]; reflexivity.
+Qed.
+Lemma parse_kdf_np : forall c l, np (parse_kdf c l).
+Proof.
+  intros c l. unfold parse_kdf. destruct l as [|n r]; try reflexivity.
+  destruct (n <? 3); try reflexivity. destruct (read_n n r) as [[b rest]|]; try reflexivity.
+  destruct (negb _); try reflexivity. destruct (fixkdf c); reflexivity.
+Qed.
+
+Definition ecok_np (ecok : bytes -> bytes -> result bool) : Prop := forall o p, np (ecok o p).
+
+Lemma new_ecdsa_np : forall ecok oid pt, ecok_np ecok -> np (new_ecdsa ecok oid pt).
+Proof.
+  intros ecok oid pt H. unfold new_ecdsa. destruct (nist_curve_name oid); try reflexivity.
+  apply np_bind; auto. intros ok _. destruct ok; reflexivity.
+Qed.
+Lemma new_25519_np : forall c want oid pt, fix7 c = true -> np (new_25519 c want oid pt).
+Proof.
+  intros c want oid pt H. unfold new_25519. rewrite H. destruct (bytes_eqb oid want); try reflexivity.
+  destruct (lenN (m_bytes pt) =? 33); reflexivity.
+Qed.
+
+Ltac np_step :=
+  match goal with
+  | |- np (bind (mpi_read _) _) => apply np_bind; [apply mpi_read_np | intros [? ?] _]
+  | |- np (bind (parse_oid _) _) => apply np_bind; [apply parse_oid_np | intros [? ?] _]
+  | |- np (bind (parse_kdf _ _) _) => apply np_bind; [apply parse_kdf_np | intros [? ?] _]
+  | |- np (Ok _) => reflexivity
+  | |- np (Err _) => reflexivity
+  end.
+
+Lemma parse_keymat_np : forall c ecok algo l, fix7 c = true -> ecok_np ecok -> np (parse_keymat c ecok algo l).
+Proof.
+  intros c ecok algo l H7 He. unfold parse_keymat.
+  destruct ((algo =? 1) || (algo =? 2) || (algo =? 3)).
+  { repeat np_step. destruct (3 <? lenN (m_bytes m0)); reflexivity. }
+  destruct (algo =? 17). { repeat np_step. }
+  destruct (algo =? 16). { repeat np_step. }
+  destruct (algo =? 19).
+  { repeat np_step. apply np_bind; [now apply new_ecdsa_np | intros; reflexivity]. }
+  destruct (algo =? 18).
+  { repeat np_step. apply np_bind; [|intros; reflexivity].
+    destruct (bytes_eqb b oid_x25519); [now apply new_25519_np | now apply new_ecdsa_np]. }
+  destruct (algo =? 22).
+  { repeat np_step. apply np_bind; [now apply new_25519_np | intros; reflexivity]. }
+  reflexivity.
+Qed.
+
+Lemma parse_public_key_np : forall c ecok l, fix7 c = true -> ecok_np ecok -> np (parse_public_key c ecok l).
+Proof.
+  intros c ecok l H7 He. unfold parse_public_key.
+  destruct l as [|v [|t0 [|t1 [|t2 [|t3 [|algo r]]]]]]; try reflexivity.
+  destruct (negb (v =? 4)); try reflexivity.
+  apply np_bind; [now apply parse_keymat_np | intros [m rest] _; reflexivity].
+Qed.
+
+(* an EdDSA key that was accepted has a 33-octet point, so ed25519.Verify gets a 32-octet key *)
+Definition mat_ok (m : keymat) : Prop :=
+  match m with KEdDSA _ pt => lenN (m_bytes pt) = 33 | _ => True end.
+Definition key_ok (k : pubkey) : Prop := mat_ok (pk_mat k).
+
+Lemma parse_keymat_ok : forall c ecok algo l m rest, fix7 c = true ->
+  parse_keymat c ecok algo l = Ok (m, rest) -> mat_ok m.
+Proof.
+  intros c ecok algo l m rest H7 H. unfold parse_keymat in H.
+  destruct ((algo =? 1) || (algo =? 2) || (algo =? 3)).
+  { apply bind_ok in H. destruct H as [[n l1] [_ H]]. apply bind_ok in H. destruct H as [[e l2] [_ H]].
+    destruct (3 <? lenN (m_bytes e)); [discriminate|]. inversion H; subst. exact I. }
+  destruct (algo =? 17).
+  { do 4 (apply bind_ok in H; destruct H as [[? ?] [_ H]]). inversion H; subst. exact I. }
+  destruct (algo =? 16).
+  { do 3 (apply bind_ok in H; destruct H as [[? ?] [_ H]]). inversion H; subst. exact I. }
+  destruct (algo =? 19).
+  { do 2 (apply bind_ok in H; destruct H as [[? ?] [_ H]]). apply bind_ok in H; destruct H as [? [_ H]].
+    inversion H; subst. exact I. }
+  destruct (algo =? 18).
+  { do 3 (apply bind_ok in H; destruct H as [[? ?] [_ H]]). apply bind_ok in H; destruct H as [? [_ H]].
+    inversion H; subst. exact I. }
+  destruct (algo =? 22).
+  { apply bind_ok in H; destruct H as [[oid l1] [_ H]]. apply bind_ok in H; destruct H as [[pt l2] [_ H]].
+    apply bind_ok in H; destruct H as [u [E H]]. inversion H; subst. simpl.
+    unfold new_25519 in E. rewrite H7 in E. destruct (bytes_eqb oid oid_ed25519); [|discriminate].
+    destruct (lenN (m_bytes pt) =? 33) eqn:E33; [|discriminate]. now apply N.eqb_eq. }
+  discriminate.
+Qed.
+
+Lemma parse_public_key_ok : forall c ecok l k rest, fix7 c = true ->
+  parse_public_key c ecok l = Ok (k, rest) -> key_ok k.
+Proof.
+  intros c ecok l k rest H7 H. unfold parse_public_key in H.
+  destruct l as [|v [|t0 [|t1 [|t2 [|t3 [|algo r]]]]]]; try discriminate.
+  destruct (negb (v =? 4)); [discriminate|].
+  apply bind_ok in H. destruct H as [[m rest'] [E H]]. inversion H; subst. unfold key_ok. simpl.
+  eapply parse_keymat_ok; eauto.
+Qed.
+
+(* signature packets *)
+Lemma parse_subpacket_np : forall emb hashed st l, (forall b, np (emb b)) -> np (parse_subpacket emb hashed st l).
+Proof.
+  intros emb hashed st l He. unfold parse_subpacket. destruct l as [|b0 r0]; try reflexivity.
+  match goal with |- np (match ?h with _ => _ end) => destruct h as [[len sub]|] end; try reflexivity.
+  destruct (read_n len sub) as [[body rest]|]; try reflexivity.
+  destruct body as [|t0 content]; try reflexivity.
+  repeat match goal with
+  | |- np (if ?b then _ else _) => destruct b
+  | |- np (Ok _) => reflexivity
+  | |- np (Err _) => reflexivity
+  | |- np (match ?x with _ => _ end) => destruct x
+  end.
+  apply np_bind; auto. intros e _. destruct (negb _); reflexivity.
+Qed.
+
+Lemma parse_subpackets_loop_np : forall fuel emb hashed st l, (forall b, np (emb b)) ->
+  np (parse_subpackets_loop fuel emb hashed st l).
+Proof.
+  induction fuel; intros emb hashed st l He; simpl; destruct l; try reflexivity.
+  apply np_bind; [now apply parse_subpacket_np | intros [st' rest] _; now apply IHfuel].
+Qed.
+Lemma parse_subpackets_np : forall emb hashed st l, (forall b, np (emb b)) -> np (parse_subpackets emb hashed st l).
+Proof.
+  intros. unfold parse_subpackets. apply np_bind; [now apply parse_subpackets_loop_np|].
+  intros st' _. destruct (sp_created st'); reflexivity.
+Qed.
+
+Lemma parse_sig_fuel_np : forall fuel l, np (parse_sig_fuel fuel l).
+Proof.
+  induction fuel; intros l; [reflexivity|]. simpl.
+  assert (Hemb : forall b, np (bind (parse_sig_fuel fuel b) (fun '(s, _) => Ok (s_core s)))).
+  { intros b. apply np_bind; [apply IHfuel | intros [s r] _; reflexivity]. }
+  destruct l as [|v r]; try reflexivity.
+  destruct (negb (v =? 4)); try reflexivity.
+  destruct r as [|typ [|alg [|hid [|h1 [|h0 r1]]]]]; try reflexivity.
+  destruct (negb (sig_alg_ok alg)); try reflexivity.
+  destruct (negb (hash_id_ok hid)); try reflexivity.
+  destruct (read_n (h1 * 256 + h0) r1) as [[hashed r2]|]; try reflexivity.
+  apply np_bind; [now apply parse_subpackets_np|]. intros st1 _.
+  destruct r2 as [|u1 [|u0 r3]]; try reflexivity.
+  destruct (read_n (u1 * 256 + u0) r3) as [[unhashed r4]|]; try reflexivity.
+  apply np_bind; [now apply parse_subpackets_np|]. intros st2 _.
+  destruct r4 as [|g0 [|g1 r5]]; try reflexivity.
+  apply np_bind; [|intros [mpis r6] _; reflexivity].
+  destruct ((alg =? 1) || (alg =? 3)); repeat np_step.
+Qed.
+
+(* secret keys *)
+Definition params_np (P : params) : Prop :=
+  (forall h m, np (p_D P h m)) /\ (forall k h d cs, np (p_prim P k h d cs)) /\
+  ecok_np (p_ecok P) /\ (forall k, np (p_rsa_ok P k)).
+
+Lemma parse_private_np : forall c P k l, fix8 c = true -> params_np P -> np (parse_private c P k l).
+Proof.
+  intros c P k l H8 (_ & _ & _ & Hr). unfold parse_private. rewrite H8.
+  destruct ((pk_algo k =? 1) || (pk_algo k =? 2) || (pk_algo k =? 3)).
+  { repeat np_step. apply np_bind; auto. intros ok _. destruct ok; reflexivity. }
+  destruct ((pk_algo k =? 17) || (pk_algo k =? 16) || (pk_algo k =? 19) || (pk_algo k =? 22)).
+  { repeat np_step. }
+  destruct (pk_algo k =? 18); repeat np_step.
+Qed.
+
+Lemma parse_secret_tail_np : forall c P k short l, fix8 c = true -> params_np P -> np (parse_secret_tail c P k short l).
+Proof.
+  intros c P k short l H8 HP. unfold parse_secret_tail. destruct l as [|s2k r]; try reflexivity.
+  destruct (s2k =? 0).
+  { destruct short; [reflexivity | now apply parse_private_np]. }
+  destruct ((s2k =? 254) || (s2k =? 255)); try reflexivity.
+  destruct r as [|cipher [|t [|h r1]]]; try reflexivity.
+  destruct (negb (hash_id_ok h)); try reflexivity.
+  destruct (negb (p_avail P h)); try reflexivity.
+  apply np_bind.
+  - destruct (t =? 0); try reflexivity. destruct (t =? 1).
+    { destruct (read_n 8 r1) as [[? ?]|]; reflexivity. }
+    destruct (t =? 3); try reflexivity. destruct (read_n 9 r1) as [[? ?]|]; reflexivity.
+  - intros r2 _. destruct (cipher_block_size cipher =? 0); try reflexivity.
+    destruct (read_n _ r2) as [[? ?]|]; try reflexivity. destruct short; reflexivity.
+Qed.
+
+(* packets and events *)
+Definition packet_ok (p : packet) : Prop := match p with PKey _ _ k => key_ok k | _ => True end.
+Definition event_ok (ev : event) : Prop :=
+  match ev with EvP p => packet_ok p | EvPanic => False | _ => True end.
+
+Lemma read_packet_ok : forall c P tag body short, fix7 c = true -> fix8 c = true -> params_np P ->
+  match read_packet c P tag body short with
+  | RPanic => False
+  | RP p => packet_ok p
+  | _ => True
+  end.
+Proof.
+  intros c P tag body short H7 H8 HP. pose proof HP as (_ & _ & He & _). unfold read_packet.
+  destruct ((tag =? 2) || (tag =? 6) || (tag =? 14)).
+  { destruct body as [|v b]; [destruct short; exact I|].
+    destruct (v <? 4); [exact I|].
+    destruct (tag =? 2).
+    - pose proof (parse_sig_fuel_np (S (length (v :: b))) (v :: b)) as N. unfold parse_sig.
+      destruct (parse_sig_fuel _ _) as [[s [|? ?]]|e|s]; try exact I; try discriminate.
+      unfold rd_of_err. destruct (String.eqb e miss); exact I.
+    - pose proof (parse_public_key_np c (p_ecok P) (v :: b) H7 He) as N.
+      destruct (parse_public_key c (p_ecok P) (v :: b)) as [[k [|? ?]]|e|s] eqn:E; try exact I; try discriminate.
+      + simpl. eapply parse_public_key_ok; eauto.
+      + unfold rd_of_err. destruct (String.eqb e miss); exact I. }
+  destruct ((tag =? 5) || (tag =? 7)).
+  { pose proof (parse_public_key_np c (p_ecok P) body H7 He) as N.
+    destruct (parse_public_key c (p_ecok P) body) as [[k tail]|e|s] eqn:E; try discriminate.
+    - pose proof (parse_secret_tail_np c P k short tail H8 HP) as N2.
+      destruct (parse_secret_tail c P k short tail) as [u|e|s]; try discriminate.
+      + simpl. eapply parse_public_key_ok; eauto.
+      + unfold rd_of_err. destruct (String.eqb e miss); exact I.
+    - unfold rd_of_err. destruct (String.eqb e miss); exact I. }
+  destruct (tag =? 13). { destruct short; exact I. }
+  destruct (unmodelled_tag tag); exact I.
+Qed.
+
+Lemma events_fuel_ok : forall fuel c P l, fix7 c = true -> fix8 c = true -> params_np P ->
+  Forall event_ok (events_fuel fuel c P l).
+Proof.
+  induction fuel; intros c P l H7 H8 HP; simpl; [constructor|].
+  destruct (read_header l) as [| | |tag len rest]; try (repeat constructor).
+  set (short := lenN rest <? len). set (n := if short then length rest else N.to_nat len).
+  pose proof (read_packet_ok c P tag (take n rest) short H7 H8 HP) as R.
+  destruct (read_packet c P tag (take n rest) short); try (repeat constructor); auto.
+Qed.
+
+(* verification *)
+Lemma crypto_check_np : forall c P k s dg, params_np P -> key_ok k -> np (crypto_check c P k s dg).
+Proof.
+  intros c P k s dg (_ & Hp & _ & _) Hk. unfold crypto_check.
+  destruct ((pk_algo k =? 1) || (pk_algo k =? 3)).
+  { destruct (pk_mat k); try reflexivity. destruct (sc_mpis s) as [|? [|? ?]]; try reflexivity. apply Hp. }
+  destruct (pk_algo k =? 17).
+  { destruct (pk_mat k); try reflexivity. destruct (sc_mpis s) as [|? [|? [|? ?]]]; try reflexivity. apply Hp. }
+  destruct (pk_algo k =? 19).
+  { destruct (sc_mpis s) as [|? [|? [|? ?]]]; try reflexivity. apply Hp. }
+  destruct (pk_algo k =? 22); try reflexivity.
+  unfold key_ok in Hk. destruct (pk_mat k); try reflexivity. simpl in Hk.
+  destruct (sc_mpis s) as [|? [|? [|? ?]]]; try reflexivity.
+  rewrite Hk. simpl negb. cbv iota.
+  match goal with |- np (if ?b then _ else _) => destruct b end; [reflexivity | apply Hp].
+Qed.
+
+Lemma verify_signature_np : forall c P k prefix s, params_np P -> key_ok k -> np (verify_signature c P k prefix s).
+Proof.
+  intros c P k prefix s HP Hk. pose proof HP as (Hd & _). unfold verify_signature.
+  destruct (negb (pk_can_sign k)); try reflexivity.
+  apply np_bind; auto. intros dg _.
+  destruct (negb (tag_match dg (sc_tag s))); try reflexivity.
+  destruct (negb (pk_algo k =? sc_alg s)); try reflexivity.
+  apply np_bind; [now apply crypto_check_np|]. intros ok _. destruct ok; reflexivity.
+Qed.
+
+Lemma verify_uid_sig_np : forall c P k id s, params_np P -> key_ok k -> np (verify_uid_sig c P k id s).
+Proof. intros. unfold verify_uid_sig. destruct (negb _); [reflexivity | now apply verify_signature_np]. Qed.
+
+Lemma verify_key_sig_np : forall c P k sk s, params_np P -> key_ok k -> key_ok sk -> np (verify_key_sig c P k sk s).
+Proof.
+  intros c P k sk s HP Hk Hsk. unfold verify_key_sig. destruct (negb _); [reflexivity|].
+  apply np_bind; [now apply verify_signature_np|]. intros _ _.
+  destruct (has_flag _ _); try reflexivity. destruct (s_emb s) as [e|]; try reflexivity.
+  destruct (negb _); [reflexivity | now apply verify_signature_np].
+Qed.
+
+Lemma verify_revocations_np : forall c P k revs, params_np P -> key_ok k -> np (verify_revocations c P k revs).
+Proof.
+  intros c P k revs HP Hk. induction revs as [|r rest IH]; simpl; [reflexivity|].
+  assert (N : np (verify_revocation c P k r)).
+  { unfold verify_revocation. destruct (negb _); [reflexivity | now apply verify_signature_np]. }
+  destruct (verify_revocation c P k r) as [u|e|s]; auto; try discriminate.
+  destruct (String.eqb e miss); reflexivity.
+Qed.
+
+Definition mode_ok (m : mode) : Prop := match m with MSub k _ => key_ok k | _ => True end.
+
+Lemma close_mode_np : forall st m, np (close_mode st m).
+Proof. intros st m. destruct m as [|n [s|] o|k [s|]]; reflexivity. Qed.
+
+Lemma top_step_mode_ok : forall st p, packet_ok p ->
+  match top_step st p with Cont _ m => mode_ok m | Stop _ => True end.
+Proof.
+  intros st p Hp. destruct p as [sub sec k|id|s]; simpl.
+  - destruct sub; simpl; auto.
+  - exact I.
+  - destruct (_ =? _); exact I.
+Qed.
+
+Lemma step_np : forall c P primary pid st m p, params_np P -> key_ok primary -> mode_ok m -> packet_ok p ->
+  np (step c P primary pid st m p) /\
+  (forall n, step c P primary pid st m p = Ok n -> match n with Cont _ m' => mode_ok m' | Stop _ => True end).
+Proof.
+  intros c P primary pid st m p HP Hk Hm Hp.
+  destruct (is_sig_packet p) eqn:Ep.
+  - destruct p as [| |s]; try discriminate. destruct m as [|name self others|k sg].
+    + rewrite step_top. split; [reflexivity|]. intros n E. injection E as <-. exact (top_step_mode_ok st (PSig s) Hp).
+    + rewrite step_uid_sig. destruct (is_self_cert pid (s_core s)).
+      * split.
+        { apply np_bind; [now apply verify_uid_sig_np | intros; reflexivity]. }
+        { intros n E. apply bind_ok' in E. destruct E as [u [_ E]]. injection E as <-. exact I. }
+      * split; [reflexivity|]. intros n E. injection E as <-. exact I.
+    + rewrite step_sub_sig. destruct (negb (binding_type (sc_type (s_core s)))).
+      { split; [reflexivity | intros n E; discriminate]. }
+      split.
+      { apply np_bind; [now apply verify_key_sig_np|]. intros _ _.
+        destruct (_ =? _); [reflexivity|]. destruct (should_replace sg (s_core s)); reflexivity. }
+      { intros n E. apply bind_ok' in E. destruct E as [u [_ E]].
+        destruct (_ =? _); [injection E as <-; exact Hm|].
+        destruct (should_replace sg (s_core s)); injection E as <-; exact Hm. }
+  - destruct m as [|name self others|k sg].
+    + rewrite step_top. split; [reflexivity|]. intros n E. injection E as <-. exact (top_step_mode_ok st p Hp).
+    + rewrite step_close by (discriminate || assumption). split.
+      { apply np_bind; [apply close_mode_np | intros; reflexivity]. }
+      { intros n E. apply bind_ok' in E. destruct E as [st' [_ E]]. injection E as <-. exact (top_step_mode_ok st' p Hp). }
+    + rewrite step_close by (discriminate || assumption). split.
+      { apply np_bind; [apply close_mode_np | intros; reflexivity]. }
+      { intros n E. apply bind_ok' in E. destruct E as [st' [_ E]]. injection E as <-. exact (top_step_mode_ok st' p Hp). }
+Qed.
+
+Lemma finish_np : forall c P primary st, params_np P -> key_ok primary -> np (finish c P primary st).
+Proof.
+  intros. unfold finish. destruct (st_ids st); [reflexivity|].
+  apply np_bind; [now apply verify_revocations_np | intros; reflexivity].
+Qed.
+
+Lemma run_packets_np : forall c P primary pid evs st m, params_np P -> key_ok primary -> mode_ok m ->
+  Forall event_ok evs -> np (run_packets c P primary pid st m evs).
+Proof.
+  intros c P primary pid evs. induction evs as [|ev rest IH]; intros st m HP Hk Hm Hev; simpl.
+  - apply np_bind; [apply close_mode_np | intros; now apply finish_np].
+  - inversion Hev as [|? ? Hev1 Hev2]; subst.
+    destruct ev as [p| | | |]; try reflexivity; [|contradiction].
+    simpl in Hev1. destruct (step_np c P primary pid st m p HP Hk Hm Hev1) as [N1 N2].
+    apply np_bind; auto. intros n En. specialize (N2 n En).
+    destruct n as [st' m'|st']; [now apply IH | now apply finish_np].
+Qed.
+
+Theorem pgp_key_no_panic : forall c P private stream, fix7 c = true -> fix8 c = true -> params_np P ->
+  np (pgp_key c P private stream).
+Proof.
+  intros c P private stream H7 H8 HP. unfold pgp_key. apply np_bind; [|intros; reflexivity].
+  pose proof (events_fuel_ok (S (length stream)) c P stream H7 H8 HP) as Hev. fold (events_of c P stream) in Hev.
+  unfold read_entity. destruct (events_of c P stream) as [|ev rest]; [reflexivity|].
+  inversion Hev as [|? ? Hev1 Hev2]; subst.
+  destruct ev as [p| | | |]; try reflexivity; [|contradiction].
+  destruct p as [sub sec k|id|s]; try reflexivity.
+  destruct (negb (algo_can_sign (pk_algo k))); [reflexivity|].
+  apply run_packets_np; auto. exact I.
+Qed.
+
+
+
+(* ------------------------------------------------------------------ *)
+(* fuel is never exhausted (the termination arguments of the Go loops) *)
+(* ------------------------------------------------------------------ *)
+Lemma read_n_lengths : forall n l a r, read_n n l = Some (a, r) -> (length l = length a + length r)%nat.
+Proof. intros n l a r H. apply read_n_spec in H. destruct H as [H _]. subst l. apply app_length. Qed.
+
+Lemma read_header_shorter : forall l tag len rest, read_header l = HPkt tag len rest -> (length rest < length l)%nat.
+Proof.
+  intros l tag len rest H. unfold read_header in H. destruct l as [|b r]; [discriminate|].
+  destruct (b <? 128); [discriminate|].
+  destruct (N.land b 64 =? 0).
+  - destruct (N.land b 3 =? 3); [discriminate|].
+    destruct (read_n _ r) as [[lb rest']|] eqn:E; [|discriminate]. inversion H; subst.
+    apply read_n_lengths in E. simpl. lia.
+  - destruct r as [|l0 r1]; [discriminate|].
+    destruct (l0 <? 192); [inversion H; subst; simpl; lia|].
+    destruct (l0 <? 224).
+    { destruct r1 as [|l1 r2]; [discriminate|]. inversion H; subst. simpl. lia. }
+    destruct (l0 <? 255); [discriminate|].
+    destruct (read_n 4 r1) as [[lb rest']|] eqn:E; [|discriminate]. inversion H; subst.
+    apply read_n_lengths in E. simpl. lia.
+Qed.
+
+Theorem events_fuel_stable : forall f1 f2 c P l, (length l < f1)%nat -> (length l < f2)%nat ->
+  events_fuel f1 c P l = events_fuel f2 c P l.
+Proof.
+  induction f1; intros f2 c P l H1 H2; [lia|]. destruct f2; [lia|]. simpl.
+  destruct (read_header l) as [| | |tag len rest] eqn:E; auto.
+  apply read_header_shorter in E.
+  set (short := lenN rest <? len). set (n := if short then length rest else N.to_nat len).
+  assert (L : (length (drop n rest) <= length rest)%nat) by (rewrite drop_length; lia).
+  destruct (read_packet c P tag (take n rest) short); auto.
+  - f_equal. apply IHf1; lia.
+  - apply IHf1; lia.
+Qed.
+
+(* one subpacket consumes at least its length octet, and hands only shorter strings to the embedded parser *)
+Lemma parse_subpacket_shorter : forall emb hashed st l st' rest,
+  parse_subpacket emb hashed st l = Ok (st', rest) -> (length rest < length l)%nat.
+Proof.
+  intros emb hashed st l st' rest H. unfold parse_subpacket in H. destruct l as [|b0 r0]; [discriminate|].
+  match type of H with (match ?h with _ => _ end) = _ => destruct h as [[len sub]|] eqn:Eh end; [|discriminate].
+  destruct (read_n len sub) as [[body rest']|] eqn:E; [|discriminate].
+  destruct body as [|t0 content]; [discriminate|].
+  assert (R : rest = rest').
+  { repeat match type of H with
+    | (if ?b then _ else _) = _ => destruct b
+    | (match ?x with _ => _ end) = _ => destruct x eqn:?
+    | Err _ = _ => discriminate
+    | Ok _ = Ok _ => inversion H; reflexivity
+    | bind _ _ = _ => apply bind_ok in H; destruct H as [? [_ H]]
+    end. }
+  subst rest'. apply read_n_lengths in E.
+  assert (S : (length sub <= length r0)%nat).
+  { destruct (b0 <? 192); [inversion Eh; subst; lia|].
+    destruct (b0 <? 255).
+    - destruct r0 as [|b1 r1]; [discriminate|]. inversion Eh; subst. simpl. lia.
+    - destruct r0 as [|b1 [|b2 [|b3 [|b4 r4]]]]; try discriminate. inversion Eh; subst. simpl. lia. }
+  simpl in *. lia.
+Qed.
+
+Lemma parse_subpacket_emb_ext : forall emb1 emb2 hashed st l,
+  (forall b, (length b < length l)%nat -> emb1 b = emb2 b) ->
+  parse_subpacket emb1 hashed st l = parse_subpacket emb2 hashed st l.
+Proof.
+  intros emb1 emb2 hashed st l H. unfold parse_subpacket. destruct l as [|b0 r0]; auto.
+  match goal with |- (match ?h with _ => _ end) = _ => destruct h as [[len sub]|] eqn:Eh end; auto.
+  destruct (read_n len sub) as [[body rest']|] eqn:E; auto.
+  destruct body as [|t0 content]; auto.
+  assert (L : (length content < length (b0 :: r0))%nat).
+  { apply read_n_lengths in E.
+    assert (S : (length sub <= length r0)%nat).
+    { destruct (b0 <? 192); [inversion Eh; subst; lia|].
+      destruct (b0 <? 255).
+      - destruct r0 as [|b1 r1]; [discriminate|]. inversion Eh; subst. simpl. lia.
+      - destruct r0 as [|b1 [|b2 [|b3 [|b4 r4]]]]; try discriminate. inversion Eh; subst. simpl. lia. }
+    simpl in *. lia. }
+  rewrite (H content L). reflexivity.
+Qed.
+
+Lemma parse_subpackets_loop_stable : forall f1 f2 emb1 emb2 hashed st l,
+  (length l <= f1)%nat -> (length l <= f2)%nat ->
+  (forall b, (length b < length l)%nat -> emb1 b = emb2 b) ->
+  parse_subpackets_loop f1 emb1 hashed st l = parse_subpackets_loop f2 emb2 hashed st l.
+Proof.
+  induction f1; intros f2 emb1 emb2 hashed st l H1 H2 He.
+  - destruct l; [|simpl in H1; lia]. destruct f2; reflexivity.
+  - destruct l as [|x l']; [destruct f2; reflexivity|]. destruct f2; [simpl in H2; lia|].
+    cbn [parse_subpackets_loop].
+    rewrite (parse_subpacket_emb_ext emb1 emb2 hashed st (x :: l') He).
+    destruct (parse_subpacket emb2 hashed st (x :: l')) as [[st' rest]|e|s] eqn:E; auto. simpl.
+    apply parse_subpacket_shorter in E.
+    apply IHf1; try (simpl in *; lia). intros b Hb. apply He. lia.
+Qed.
+
+(* with the fuel the model supplies, exhaustion is never reported *)
+Lemma parse_subpacket_err_fuel : forall emb hashed st l,
+  parse_subpacket emb hashed st l = Err "fuel" ->
+  exists b, (length b < length l)%nat /\ emb b = Err "fuel".
+Proof.
+  intros emb hashed st l E. unfold parse_subpacket in E. destruct l as [|b0 r0]; [discriminate|].
+  match type of E with (match ?h with _ => _ end) = _ => destruct h as [[len sub]|] eqn:Eh end; [|discriminate].
+  destruct (read_n len sub) as [[body rest']|] eqn:Er; [|discriminate].
+  destruct body as [|t0 content]; [discriminate|].
+  assert (L : (length content < length (b0 :: r0))%nat).
+  { apply read_n_lengths in Er.
+    assert (S : (length sub <= length r0)%nat).
+    { destruct (b0 <? 192); [inversion Eh; subst; lia|].
+      destruct (b0 <? 255).
+      - destruct r0 as [|b1 r1]; [discriminate|]. inversion Eh; subst. simpl. lia.
+      - destruct r0 as [|b1 [|b2 [|b3 [|b4 r4]]]]; try discriminate. inversion Eh; subst. simpl. lia. }
+    simpl in *. lia. }
+  repeat match type of E with
+  | (if ?b then _ else _) = _ => destruct b
+  | (match ?x with _ => _ end) = _ => destruct x eqn:?
+  | Err _ = Err _ => discriminate
+  | Ok _ = Err _ => discriminate
+  end.
+  destruct (emb content) as [e'|e'|s'] eqn:Ee; simpl in E; try discriminate.
+  - destruct (negb _); discriminate.
+  - inversion E; subst. exists content. auto.
+Qed.
+
+Lemma parse_subpackets_loop_no_fuel_err : forall f emb hashed st l, (length l <= f)%nat ->
+  (forall b, (length b < length l)%nat -> emb b <> Err "fuel") ->
+  parse_subpackets_loop f emb hashed st l <> Err "fuel".
+Proof.
+  induction f; intros emb hashed st l H He.
+  - destruct l; [discriminate | simpl in H; lia].
+  - destruct l as [|x l']; [discriminate|]. cbn [parse_subpackets_loop].
+    destruct (parse_subpacket emb hashed st (x :: l')) as [[st' rest]|e|s] eqn:E; simpl; try discriminate.
+    + apply parse_subpacket_shorter in E. apply IHf; [simpl in *; lia|].
+      intros b Hb. apply He. lia.
+    + intros X. inversion X; subst. apply parse_subpacket_err_fuel in E. destruct E as [b [Hb Eb]].
+      exact (He b Hb Eb).
+Qed.
+
+Lemma mpi_read_not_fuel : forall l, mpi_read l <> Err "fuel".
+Proof.
+  intros l. unfold mpi_read. destruct l as [|b0 [|b1 r]]; try discriminate.
+  destruct (read_n ((b0 * 256 + b1 + 7) / 8) r) as [[v rest]|]; discriminate.
+Qed.
+
+Theorem parse_sig_fuel_no_fuel_err : forall f l, (length l < f)%nat -> parse_sig_fuel f l <> Err "fuel".
+Proof.
+  induction f; intros l H; [lia|]. cbn [parse_sig_fuel].
+  destruct l as [|v r]; [discriminate|].
+  destruct (negb (v =? 4)); [discriminate|].
+  destruct r as [|typ [|alg [|hid [|h1 [|h0 r1]]]]]; try discriminate.
+  destruct (negb (sig_alg_ok alg)); [discriminate|]. destruct (negb (hash_id_ok hid)); [discriminate|].
+  destruct (read_n (h1 * 256 + h0) r1) as [[hashed r2]|] eqn:E1; [|discriminate].
+  pose proof (read_n_lengths _ _ _ _ E1) as L1.
+  assert (Emb : forall b, (length b < length r1)%nat ->
+            bind (parse_sig_fuel f b) (fun '(s, _) => Ok (s_core s)) <> Err "fuel").
+  { intros b Hb X. destruct (parse_sig_fuel f b) as [[s r]|e|s] eqn:E; simpl in X; try discriminate.
+    inversion X; subst. revert E. apply IHf. simpl in *. lia. }
+  unfold parse_subpackets.
+  destruct (parse_subpackets_loop (length hashed) _ true spst0 hashed) as [st1|e|s] eqn:P1; simpl; try discriminate.
+  2:{ intros X. inversion X; subst. revert P1. apply parse_subpackets_loop_no_fuel_err; auto.
+      intros b Hb. apply Emb. lia. }
+  destruct (sp_created st1); [|discriminate]. simpl.
+  destruct r2 as [|u1 [|u0 r3]]; try discriminate.
+  destruct (read_n (u1 * 256 + u0) r3) as [[unhashed r4]|] eqn:E2; [|discriminate].
+  pose proof (read_n_lengths _ _ _ _ E2) as L2.
+  destruct (parse_subpackets_loop (length unhashed) _ false st1 unhashed) as [st2|e|s] eqn:P2; simpl; try discriminate.
+  2:{ intros X. inversion X; subst. revert P2. apply parse_subpackets_loop_no_fuel_err; auto.
+      intros b Hb. apply Emb. simpl in *. lia. }
+  destruct (sp_created st2); [|discriminate]. simpl.
+  destruct r4 as [|g0 [|g1 r5]]; try discriminate.
+  match goal with |- bind ?m _ <> _ => destruct m as [[mpis r6]|e|s] eqn:Em end; simpl; try discriminate.
+  intros X. inversion X; subst.
+  destruct ((alg =? 1) || (alg =? 3)).
+  - destruct (mpi_read r5) as [[a x]|e|s] eqn:M1; simpl in Em; try discriminate.
+    inversion Em; subst. exact (mpi_read_not_fuel _ M1).
+  - destruct (mpi_read r5) as [[a x]|e|s] eqn:M1; simpl in Em; try discriminate.
+    + destruct (mpi_read x) as [[b y]|e|s] eqn:M2; simpl in Em; try discriminate.
+      inversion Em; subst. exact (mpi_read_not_fuel _ M2).
+    + inversion Em; subst. exact (mpi_read_not_fuel _ M1).
+Qed.
+
+Corollary parse_sig_no_fuel_err : forall l, parse_sig l <> Err "fuel".
+Proof. intros l. unfold parse_sig. apply parse_sig_fuel_no_fuel_err. lia. Qed.
+
+Theorem parse_sig_fuel_stable : forall f1 f2 l, (length l < f1)%nat -> (length l < f2)%nat ->
+  parse_sig_fuel f1 l = parse_sig_fuel f2 l.
+Proof.
+  induction f1; intros f2 l H1 H2; [lia|]. destruct f2; [lia|]. cbn [parse_sig_fuel].
+  destruct l as [|v r]; auto.
+  destruct (negb (v =? 4)); auto.
+  destruct r as [|typ [|alg [|hid [|h1 [|h0 r1]]]]]; auto.
+  destruct (negb (sig_alg_ok alg)); auto. destruct (negb (hash_id_ok hid)); auto.
+  destruct (read_n (h1 * 256 + h0) r1) as [[hashed r2]|] eqn:E1; auto.
+  pose proof (read_n_lengths _ _ _ _ E1) as L1.
+  assert (Emb : forall b, (length b < length r1)%nat ->
+            bind (parse_sig_fuel f1 b) (fun '(s, _) => Ok (s_core s)) = bind (parse_sig_fuel f2 b) (fun '(s, _) => Ok (s_core s))).
+  { intros b Hb. rewrite (IHf1 f2 b); auto; simpl in *; lia. }
+  unfold parse_subpackets at 1 3.
+  rewrite (parse_subpackets_loop_stable (length hashed) (length hashed) _
+             (fun b => bind (parse_sig_fuel f2 b) (fun '(s, _) => Ok (s_core s))) true spst0 hashed); auto.
+  2:{ intros b Hb. apply Emb. lia. }
+  destruct (bind (parse_subpackets_loop (length hashed) _ true spst0 hashed) _) as [st1|e|s]; auto. simpl.
+  destruct r2 as [|u1 [|u0 r3]]; auto.
+  destruct (read_n (u1 * 256 + u0) r3) as [[unhashed r4]|] eqn:E2; auto.
+  pose proof (read_n_lengths _ _ _ _ E2) as L2.
+  unfold parse_subpackets.
+  rewrite (parse_subpackets_loop_stable (length unhashed) (length unhashed) _
+             (fun b => bind (parse_sig_fuel f2 b) (fun '(s, _) => Ok (s_core s))) false st1 unhashed); auto.
+  intros b Hb. apply Emb. simpl in *. lia.
+Qed.
+
+(* ------------------------------------------------------------------ *)
+(* what an identity and a subkey show (F38, F39)                       *)
+(* ------------------------------------------------------------------ *)
+Theorem identity_attrs_exact : forall primary i,
+  i_attrs (identity_info fixed primary i) = describe_sig fixed (id_self i) (pk_created primary).
+Proof. intros. unfold identity_info. cbn [i_attrs fix38 fixed]. apply app_nil_r. Qed.
+
+Theorem subkey_dates_exact : forall s,
+  subkey_sig_attrs fixed s =
+    [(bs "Usage", usage_string (sc_flags (sk_sig s)));
+     (bs "Created", fmt_date_utc (pk_created (sk_key s)));
+     (bs "Expires", match sc_keylife (sk_sig s) with
+                    | None => bs "never"
+                    | Some 0 => bs "never"
+                    | Some l => fmt_date_utc (pk_created (sk_key s) + l)
+                    end)].
+Proof. intros s. unfold subkey_sig_attrs. rewrite dates_exact. reflexivity. Qed.
+
+(* F38: the old code appended the attributes of every other signature behind the user ID *)
+Definition f38_other : sigcore := mksig 16 22 8 [] [0; 0] [] 1500000200 (Some 5) (Some 1) true 47.
+Definition f38_identity : identity := mkid (bs "alice") f28_sig [f38_other].
+Lemma f38_legacy : map fst (i_attrs (identity_info legacy ex_key f38_identity)) =
+  [bs "Usage"; bs "Created"; bs "Expires"; bs "Usage"; bs "Created"; bs "Expires"].
+Proof. vm_compute. reflexivity. Qed.
+Lemma f38_fixed : map fst (i_attrs (identity_info fixed ex_key f38_identity)) = [bs "Usage"; bs "Created"; bs "Expires"].
+Proof. vm_compute. reflexivity. Qed.
+
+(* F39: subkey created 2020-01-01, binding signature renewed on 2020-06-01 *)
+Definition f39_subkey : subkey :=
+  mksub (mkpub 1577836800 18 (KECDH oid_x25519 (mkmpi 263 (64 :: repeat 7 32)) [3; 1; 8; 7]))
+        (mksig 24 22 8 [] [0; 0] [] 1590969600 (Some 107740800) None true 12).
+Lemma f39_legacy : subkey_sig_attrs legacy f39_subkey =
+  [(bs "Usage", bs "encrypt communications, encrypt storage"); (bs "Created", bs "2020-06-01"); (bs "Expires", bs "2023-06-01")].
+Proof. vm_compute. reflexivity. Qed.
+Lemma f39_fixed : subkey_sig_attrs fixed f39_subkey =
+  [(bs "Usage", bs "encrypt communications, encrypt storage"); (bs "Created", bs "2020-01-01"); (bs "Expires", bs "2023-06-01")].
+Proof. vm_compute. reflexivity. Qed.
+
+(* ------------------------------------------------------------------ *)
+(* BitLen of an octet string, as the model computes it                 *)
+(* ------------------------------------------------------------------ *)
+
+Lemma be_to_N_strip : forall l, be_to_N (strip_zeros l) = be_to_N l.
+Proof.
+  induction l as [|x r IH]; simpl; auto. destruct x; auto.
+Qed.
+
+Lemma size_shift : forall x k r, 0 < x -> r < 2 ^ k -> N.size (x * 2 ^ k + r) = N.size x + k.
+Proof.
+  intros x k r Hx Hr.
+  rewrite !N.size_log2 by lia.
+  assert (L : N.log2 (x * 2 ^ k + r) = N.log2 x + k).
+  { apply N.log2_unique; [lia|].
+    pose proof (N.log2_spec x Hx) as [A B].
+    rewrite N.pow_add_r. rewrite N.pow_succ_r' in B.
+    split.
+    - nia.
+    - replace (N.succ (N.log2 x + k)) with (N.succ (N.log2 x) + k) by lia.
+      rewrite N.pow_add_r, N.pow_succ_r'. nia. }
+  rewrite L. lia.
+Qed.
+
+Theorem bytes_bitlen_spec : forall b, bytes_ok b = true -> bytes_bitlen b = bitlen (be_to_N b).
+Proof.
+  intros b Hok. unfold bytes_bitlen, bitlen. rewrite <- (be_to_N_strip b).
+  assert (Hs : bytes_ok (strip_zeros b) = true).
+  { clear -Hok. induction b as [|x r IH]; simpl; auto. apply bytes_ok_cons in Hok. destruct Hok as [Hx Hr].
+    destruct x; auto. unfold bytes_ok in *. simpl. rewrite Hr. simpl. unfold byte_ok. apply andb_true_iff. split; auto. lia. }
+  assert (Hz : match strip_zeros b with 0 :: _ => False | _ => True end).
+  { clear. induction b as [|x r IH]; simpl; auto. destruct x; auto. }
+  destruct (strip_zeros b) as [|x r]; [reflexivity|].
+  destruct x as [|p]; [contradiction|].
+  apply bytes_ok_cons in Hs. destruct Hs as [_ Hr].
+  change (N.pos p :: r) with ([N.pos p] ++ r). rewrite be_to_N_app.
+  replace (be_to_N [N.pos p]) with (N.pos p) by (cbn; lia).
+  pose proof (be_to_N_bound r Hr) as B.
+  replace (256 ^ N.of_nat (length r)) with (2 ^ (8 * lenN r)) in *.
+  2:{ unfold lenN. rewrite N.pow_mul_r. reflexivity. }
+  rewrite size_shift; auto. lia.
+Qed.
+
+
+
+(* ------------------------------------------------------------------ *)
+(* C11_bitflip, relative to the cryptographic hypothesis               *)
+(* ------------------------------------------------------------------ *)
+(* the integers of a signature value (what the primitives see): content octets without leading zeros *)
+Definition sig_values (s : sigcore) : list bytes := map (fun m => strip_zeros (m_bytes m)) (sc_mpis s).
+
+(* [flip_sensitive P k0 genuine]: whatever the signature check accepts UNDER THE HONEST KEY k0 was
+   really signed by its holder: [genuine h msg v] = "the holder of k0 signed msg with hash h, the
+   signature value being v".  For RSA PKCS#1 v1.5, DSA, ECDSA and EdDSA with a collision-resistant
+   hash this is existential unforgeability under chosen-message attack; no proof assistant can
+   discharge it, so it is a named premise, never an axiom. *)
+Definition flip_sensitive (P : params) (k0 : pubkey) (genuine : N -> bytes -> list bytes -> Prop) : Prop :=
+  forall c msg s, sig_accepted c P k0 msg s -> genuine (sc_hash s) msg (sig_values s).
+
+(* the certifications and bindings the holder of k0 made: those of the unmodified key.
+   [strong]: also the signature VALUE is one the holder produced (strong unforgeability: true of
+   RSA PKCS#1 v1.5 and of Ed25519 as Go verifies it, not of DSA / ECDSA, where (r, -s) verifies too) *)
+Record signed_uid := mksu { su_uid : bytes; su_sig : sigcore }.
+Record signed_sub := mkss { ss_key : pubkey; ss_sig : sigcore }.
+
+Definition genuine_of (strong : bool) (k0 : pubkey) (uids : list signed_uid) (subs : list signed_sub)
+  (h : N) (msg : bytes) (v : list bytes) : Prop :=
+  (exists x, In x uids /\ msg = uid_hash_input k0 (su_uid x) ++ suffix (su_sig x) /\
+             (strong = true -> v = sig_values (su_sig x))) \/
+  (exists x, In x subs /\ msg = binding_hash_input k0 (ss_key x) ++ suffix (ss_sig x) /\
+             (strong = true -> v = sig_values (ss_sig x))).
+
+Definition sane_key (k : pubkey) : Prop := lenN (key_body k) < 65536.
+Definition sane_sig (s : sigcore) : Prop := lenN (sc_hashed s) < 65536.
+
+Theorem bitflip_identity : forall strong c P k0 uids subs evs e,
+  flip_sensitive P k0 (genuine_of strong k0 uids subs) ->
+  sane_key k0 -> Forall (fun x => lenN (su_uid x) < 4294967296 /\ sane_sig (su_sig x)) uids ->
+  read_entity c P evs = Ok e ->
+  e_primary e = k0 ->
+  forall i, In i (e_ids e) -> lenN (id_name i) < 4294967296 -> sane_sig (id_self i) ->
+  exists x, In x uids /\ id_name i = su_uid x /\
+    sc_hashed (id_self i) = sc_hashed (su_sig x) /\ sig_header (id_self i) = sig_header (su_sig x) /\
+    (strong = true -> sig_values (id_self i) = sig_values (su_sig x)).
+Proof.
+  intros strong c P k0 uids subs evs e F S0 SU R Ep i Hi Li Si.
+  destruct (identity_bound _ _ _ _ R) as (_ & _ & A).
+  destruct (A i Hi) as (s & _ & _ & _ & _ & _ & V). rewrite Ep in V.
+  apply F in V. destruct V as [(x & Hx & Em & Ev)|(x & Hx & Em & _)].
+  - rewrite Forall_forall in SU. destruct (SU x Hx) as [Lx Sx].
+    apply uid_message_injective in Em; auto. destruct Em as (_ & E2 & E3 & E4).
+    exists x. repeat split; auto.
+  - exfalso. revert Em. apply uid_vs_binding_disjoint; auto.
+Qed.
+
+Theorem bitflip_subkey : forall strong c P k0 uids subs evs e,
+  flip_sensitive P k0 (genuine_of strong k0 uids subs) ->
+  sane_key k0 -> Forall (fun x => sane_key (ss_key x) /\ sane_sig (ss_sig x)) subs ->
+  read_entity c P evs = Ok e ->
+  e_primary e = k0 ->
+  forall sk, In sk (e_subkeys e) -> sane_key (sk_key sk) -> sane_sig (sk_sig sk) ->
+  exists x, In x subs /\ key_body (sk_key sk) = key_body (ss_key x) /\
+    sc_hashed (sk_sig sk) = sc_hashed (ss_sig x) /\ sig_header (sk_sig sk) = sig_header (ss_sig x) /\
+    (strong = true -> sig_values (sk_sig sk) = sig_values (ss_sig x)).
+Proof.
+  intros strong c P k0 uids subs evs e F S0 SS R Ep sk Hs Lk Ss.
+  destruct (subkey_bound _ _ _ _ R sk Hs) as (s & _ & _ & _ & V & _). rewrite Ep in V.
+  apply F in V. destruct V as [(x & Hx & Em & _)|(x & Hx & Em & Ev)].
+  - exfalso. symmetry in Em. revert Em. apply uid_vs_binding_disjoint; auto.
+  - rewrite Forall_forall in SS. destruct (SS x Hx) as [Lx Sx].
+    apply binding_message_injective in Em; auto. destruct Em as (_ & E2 & E3 & E4).
+    exists x. repeat split; auto.
+Qed.
+
+(* the hypothesis is satisfiable together with an accepted key: parameters that accept exactly one
+   message under ex_key, and the key whose certification is that message *)
+Definition ex_msg : bytes := uid_hash_input ex_key (bs "a") ++ suffix (s_core ex_sig).
+Definition ex_strict : params :=
+  mkparams (fun _ => repeat 0 20) (fun _ m => if bytes_eqb m ex_msg then Ok [1; 2; 3] else Err "unknown message")
+           (fun _ => true) (fun _ _ _ _ => Ok true) (fun _ _ => Ok true) (fun _ => Ok true).
+Example ex_flip_sensitive :
+  flip_sensitive ex_strict ex_key (genuine_of false ex_key [mksu (bs "a") (s_core ex_sig)] []) /\
+  is_ok (read_entity fixed ex_strict ex_evs) = true.
+Proof.
+  split; [|vm_compute; reflexivity].
+  intros c msg s (_ & dg & D & _). left. exists (mksu (bs "a") (s_core ex_sig)). split; [left; reflexivity|].
+  split; [|discriminate]. simpl in D. destruct (bytes_eqb msg ex_msg) eqn:E; [|discriminate].
+  apply bytes_eqb_eq in E. exact E.
+Qed.
+
+(* ------------------------------------------------------------------ *)
+(* shape of the description                                            *)
+(* ------------------------------------------------------------------ *)
+Theorem description_shape : forall c P private stream i,
+  pgp_key c P private stream = Ok i ->
+  exists e, read_entity c P (events_of c P stream) = Ok e /\
+    first_key (events_of c P stream) = Some (e_primary e) /\
+    i_desc i = (if private then bs "GPG/PGP private key" else bs "GPG/PGP public key") /\
+    i_attrs i = describe_key (p_H P) (e_primary e) /\
+    i_children i = map (identity_info c (e_primary e)) (sort_ids (e_ids e)) ++ map (subkey_info c (p_H P)) (e_subkeys e).
+Proof.
+  intros c P private stream i H. unfold pgp_key in H. apply bind_ok' in H. destruct H as [e [E H]].
+  injection H as <-. exists e. split; auto. split; [|simpl; auto].
+  destruct (read_entity_bound _ _ _ _ E) as (F & _). exact F.
+Qed.
+
+(* a hashed key-flags subpacket (type 27, one-octet length) whose first octet is f adds exactly the
+   defined bits of f to the flags of the signature *)
+Theorem flags_subpacket : forall emb st f more rest, 2 + lenN more < 192 ->
+  parse_subpacket emb true st ((2 + lenN more) :: 27 :: f :: more ++ rest) =
+    Ok (mkspst (sp_created st) (sp_keylife st) (sp_issuer st) true
+               (N.lor (sp_flags st) (N.land f known_flag_bits)) (sp_emb st), rest).
+Proof.
+  intros emb st f more rest Hlt. apply N.ltb_lt in Hlt.
+  unfold parse_subpacket. rewrite Hlt.
+  assert (R : read_n (2 + lenN more) (27 :: f :: more ++ rest) = Some (27 :: f :: more, rest)).
+  { unfold read_n.
+    assert (L : lenN (27 :: f :: more ++ rest) = 2 + lenN more + lenN rest).
+    { unfold lenN. simpl length. rewrite app_length. lia. }
+    rewrite L. replace (2 + lenN more <=? 2 + lenN more + lenN rest) with true by (symmetry; apply N.leb_le; lia).
+    replace (N.to_nat (2 + lenN more)) with (length (27 :: f :: more)) by (unfold lenN; simpl length; lia).
+    change (27 :: f :: more ++ rest) with ((27 :: f :: more) ++ rest).
+    rewrite take_app_exact, drop_app_exact. reflexivity. }
+  rewrite R. reflexivity.
+Qed.
